@@ -24,6 +24,8 @@ use std::cell::RefCell;
 use std::ops::Deref;
 use std::os::fd::{AsFd, BorrowedFd};
 use std::os::unix::io::{AsRawFd, RawFd};
+#[cfg(feature = "io_timeout")]
+use std::sync::atomic::AtomicU64;
 use std::sync::atomic::{AtomicUsize, Ordering};
 use std::sync::Arc;
 use std::{fmt, io};
@@ -122,6 +124,10 @@ pub struct EventData {
     pub io_flag: AtomicUsize,
     #[cfg(feature = "io_timeout")]
     pub timer: RefCell<Option<TimerHandle>>,
+    // expire time (see `timeout_list::now`) of the timer that is armed for the
+    // operation that is about to block, 0 if none. set by `add_io_timer`
+    #[cfg(feature = "io_timeout")]
+    pub deadline: AtomicU64,
     pub co: AtomicOption<CoroutineImpl>,
 }
 
@@ -135,6 +141,8 @@ impl EventData {
             io_flag: AtomicUsize::new(0),
             #[cfg(feature = "io_timeout")]
             timer: RefCell::new(None),
+            #[cfg(feature = "io_timeout")]
+            deadline: AtomicU64::new(0),
             co: AtomicOption::none(),
         }
     }
@@ -143,6 +151,28 @@ impl EventData {
     pub fn timer_data(&self) -> TimerData {
         TimerData {
             event_data: self as *const _ as *mut _,
+        }
+    }
+
+    /// publish the coroutine that blocks on this io.
+    /// the io timer (if any) is armed before, so if this thread was stalled in
+    /// between for longer than the timeout, the timer handler found no coroutine
+    /// here and the timer is gone, nobody would ever deliver the timeout.
+    /// in that case the deadline has passed and we deliver the timeout here
+    #[inline]
+    pub fn store_co(&self, co: CoroutineImpl) {
+        self.co.store(co);
+        #[cfg(feature = "io_timeout")]
+        {
+            let deadline = self.deadline.swap(0, Ordering::Relaxed);
+            if deadline != 0 && crate::timeout_list::now() >= deadline {
+                if let Some(mut co) = self.co.take() {
+                    set_co_para(&mut co, io::Error::new(io::ErrorKind::TimedOut, "timeout"));
+                    if let Some(co) = self.del_timer(co) {
+                        get_scheduler().schedule(co);
+                    }
+                }
+            }
         }
     }
 
